@@ -168,25 +168,28 @@ Definition provided_levels (provided : config) : list (str * str) :=
   flat_map (fun cr => map (fun nr => (fst nr, r_level (snd nr))) (snd cr)) (c_rules provided).
 
 Definition nonempty (s : str) : bool := match s with [] => false | _ => true end.
+Definition nonempty_list {A} (l : list A) : bool := match l with [] => false | _ => true end.
 
-(* the level given to rule [name] of category [cat] whose provided level is [plevel] *)
+(* the level given to rule [name] of category [cat] whose provided level is [plevel]:
+   the user's rule level, else the category default, else the global default, else [plevel]
+   ("" counts as unset everywhere) *)
 Definition select_level (user merged : config) (cat name : str) (plevel : str) : str :=
   let ulevel := match get_rule user cat name with Some r => r_level r | None => [] end in
+  let clevel := match aget (d_cats (c_defaults merged)) cat with Some cl => cl | None => [] end in
+  let glevel := d_global (c_defaults merged) in
   if nonempty ulevel then ulevel
-  else match aget (d_cats (c_defaults merged)) cat with
-       | Some cl => if nonempty cl then cl else plevel
-       | None => if nonempty (d_global (c_defaults merged)) then d_global (c_defaults merged)
-                 else plevel
-       end.
+  else if nonempty clevel then clevel
+  else if nonempty glevel then glevel
+  else plevel.
 
+(* every rule of the merged configuration gets its level; a rule name without a provided level
+   (custom rules, rules of user-made categories) falls back to "error" *)
 Definition extract_levels (user merged : config) (plevels : list (str * str)) : config :=
   {| c_defaults := c_defaults merged;
      c_rules := map_rules (fun cat name r =>
-                  match aget plevels name with
-                  | None => r            (* not a provided rule: left alone *)
-                  | Some pl => {| r_level := select_level user merged cat name pl;
-                                  r_ignore := r_ignore r; r_extra := r_extra r |}
-                  end) (c_rules merged);
+                  let pl := match aget plevels name with Some l => l | None => ERROR end in
+                  {| r_level := select_level user merged cat name pl;
+                     r_ignore := r_ignore r; r_extra := r_extra r |}) (c_rules merged);
      c_caps := c_caps merged; c_features := c_features merged; c_project := c_project merged;
      c_caps_url := c_caps_url merged; c_ignore := c_ignore merged |}.
 
@@ -456,6 +459,8 @@ Section Unmarshal.
   Variable abs : str -> str.
   Variable dash : bool.
 
+  (* value.Decode(&intermediary) first (rules / project / ignore must have their shapes), then
+     extractDefaults, extractRules, the capabilities URL, the lookup, plus / minus, features *)
   Definition unmarshal (doc : jval) : result config :=
     match doc with
     | JObj top =>
@@ -464,7 +469,14 @@ Section Unmarshal.
                    | Some (JObj m) => Ok m
                    | Some _ => Err EDecode
                    end in
+      let ign := match field (field (Some doc) IGNORE) FILES with
+                 | Some (JArr l) => match strs_of l with Some fs => Ok fs | None => Err EDecode end
+                 | None => Ok []
+                 | Some _ => Err EDecode
+                 end in
       bind rules (fun rules =>
+      bind (project_of (aget top PROJECT)) (fun proj =>
+      bind ign (fun ign =>
       bind (defaults_of rules) (fun ds =>
       bind (rules_of rules) (fun rs =>
       let capsj := field (Some doc) CAPABILITIES in
@@ -472,23 +484,16 @@ Section Unmarshal.
       match lookup url with
       | None => Err ECapsLookup
       | Some base =>
-        bind (project_of (aget top PROJECT)) (fun proj =>
         let minus := names_of (arr_field (field capsj MINUS) BUILTINS) in
         let plus := plus_of (arr_field (field capsj PLUS) BUILTINS) in
         let cps := acopy (fold_left (fun m n => adel m n) minus base) plus in
         let cv := match field (field (field (Some doc) FEATURES) REMOTE)
                               (if dash then CHECK_VERSION_DASH else CHECK_VERSION_US) with
                   | Some (JBool true) => true | _ => false end in
-        let ign := match field (field (Some doc) IGNORE) FILES with
-                   | Some (JArr l) => match strs_of l with Some fs => Ok fs | None => Err EDecode end
-                   | None => Ok []
-                   | Some _ => Err EDecode
-                   end in
-        bind ign (fun ign =>
         Ok {| c_defaults := ds; c_rules := rs; c_caps := Some cps;
               c_features := if cv then Some (Some true) else None;
-              c_project := proj; c_caps_url := url; c_ignore := ign |}))
-      end))))
+              c_project := proj; c_caps_url := url; c_ignore := ign |}
+      end))))))
     | _ => Err EDecode
     end.
 End Unmarshal.
@@ -566,3 +571,27 @@ Definition roundtrip_wf (c : config) : bool :=
   negb (str_in DEFAULT (keys (c_rules c))) &&
   forallb (fun cr => negb (str_in DEFAULT (keys (snd cr)))) (c_rules c) &&
   forallb (fun cl => str_in (fst cl) (keys (c_rules c))) (d_cats (c_defaults c)).
+
+(* ---------- vocabulary of the theorems ---------- *)
+
+(* the provided configuration comes out of FromMap: no defaults, no capabilities *)
+Definition provided_plain (p : config) : Prop :=
+  c_defaults p = {| d_global := []; d_cats := [] |} /\ c_caps p = None.
+
+(* first non-empty of a list of candidate levels *)
+Fixpoint first_set (l : list str) (fallback : str) : str :=
+  match l with
+  | [] => fallback
+  | x :: l' => if nonempty x then x else first_set l' fallback
+  end.
+
+(* what the user wrote about levels *)
+Definition user_rule_level (u : config) (cat name : str) : str :=
+  match get_rule u cat name with Some r => r_level r | None => [] end.
+Definition user_cat_default (u : config) (cat : str) : str :=
+  match aget (d_cats (c_defaults u)) cat with Some l => l | None => [] end.
+Definition user_global_default (u : config) : str := d_global (c_defaults u).
+
+(* the only Features value that UnmarshalYAML ever produces is "remote.check-version: true" *)
+Definition features_back (f : option (option bool)) : option (option bool) :=
+  match f with Some (Some true) => Some (Some true) | _ => None end.
